@@ -75,6 +75,7 @@ def routing(K):
             row("RT", K, router="lb"), row("RT", K, router="lb", tie="order", first=3, a23=True),
             row("RT", K - 1, router="process"), row("RT", K - 1, router="flex", rule="any", choice="random"),
             row("RT", K - 1, router="flex", rule="all", choice="jsq"), row("RT", K - 1, router="flex", rule="all", choice="lb"),
+            row("RT", K, router="flex", rule="any", choice="lb", shared=True, first=2, burst=2), row("RT", K, router="flex", rule="any", choice="random", shared=True, first=3, burst=1),
             row("RTM", K - 1)]
 
 
@@ -228,12 +229,14 @@ prop("C03", mons=["C03"],
                                       row("T2", 6, prio=True, c1=2, first=2, burst=1)] + with_ties([row("T2", 5), row("RN", 5, jockey=True)])
      + combo_rows(5, include={"pre_reroute", "sc_reroute", "sc_resume", "renege", "jockey", "baulk", "block", "ccafter", "jsq", "slcap"})
      + with_ties(preemption(5), -1) + tie_combo_rows(4, {"pre_reroute", "sc_reroute", "renege", "jockey"})
-     + Z0q(4),
+     + Z0q(4)
+     + [row("RN", 5, jockey="alt", first=2, burst=2), row("RN", 4, jockey="alt", first=3), row("RN", 5, jockey="alt", c=2, first=3, burst=2)],
      thorough=lambda: bump(plain(5) + blocking(5) + preemption(5) + schedules(5) + reneging(5) + baulking(4) + classchange(5) + routing(5), 1)
      + with_ties(blocking(5) + preemption(5) + reneging(5) + routing(5), -1)
      + combo_rows(6)
      + with_ties(preemption(5), 0) + tie_combo_rows(5, {"pre_reroute", "sc_reroute", "sc_resume", "renege", "jockey", "jockeyfull", "baulk", "block"})
-     + Z0q(6),
+     + Z0q(6)
+     + [row("RN", 5, jockey="alt", first=2, burst=2), row("RN", 4, jockey="alt", first=3), row("RN", 5, jockey="alt", c=2, first=3, burst=2)],
      vacuity=["c03_customers", "c03_chained"],
      functions=CORE + ["Node.write_individual_record", "Node.write_interruption_record", "Node.write_reneging_record", "Node.write_baulking_or_rejection_record", "Node.reset_individual_attributes", "Node.reroute"])
 
@@ -269,14 +272,16 @@ prop("C05", mons=["C05"],
      + combo_rows(5, include={"c2", "sc", "sc_resume", "sc_restart", "sc_resample", "pre_resume", "pre_restart", "renege", "ccwait", "lifo", "siro", "block"}, exclude=("ps", "cinf", "sl", "slcap"))
      + tie_combo_rows(4, {"sc_resume", "renege", "pre_resume", "block"})
      + combo_rows(5, include={"sc_resume", "sc_restart", "pre_resume", "pre_restart", "renege", "lifo", "siro", "block", "ccwait"}, exclude=("c2", "cinf", "ps", "sl", "slcap", "offset"), extra={"c1": 2}, cap=250)
-     + Z0q(4),
+     + Z0q(4)
+     + [row("GEN", 6, topo="self", p=0.5, cap1=1, classes=2, prio=True, pre="reroute", burst=1, first=2), row("GEN", 6, topo="loop", p=0.5, cap1=1, cap2=1, classes=2, prio=True, pre="reroute", burst=1, first=2)],
      thorough=lambda: bump(plain(5) + blocking(5) + priorities(5) + preemption(5) + schedules(5) + reneging(5) + classchange(5), 1)
      + [row("Q1", 6, c=1, discipline="SIRO", first=2), row("RN", 5, blockedinto=True)]
      + with_ties(plain(5) + blocking(5) + preemption(5) + schedules(5) + reneging(5), -1)
      + combo_rows(6, exclude=("ps", "cinf", "sl", "slcap"))
      + tie_combo_rows(5, {"c2", "sc", "sc_resume", "sc_restart", "pre_resume", "pre_restart", "renege", "block", "lifo"}, exclude=("ps", "cinf", "sl", "slcap"))
      + combo_rows(6, exclude=("c2", "cinf", "ps", "sl", "slcap", "offset"), extra={"c1": 2}, cap=2000)
-     + Z0q(6),
+     + Z0q(6)
+     + [row("GEN", 6, topo="self", p=0.5, cap1=1, classes=2, prio=True, pre="reroute", burst=1, first=2), row("GEN", 6, topo="loop", p=0.5, cap1=1, cap2=1, classes=2, prio=True, pre="reroute", burst=1, first=2)],
      vacuity=["c05_zero_wait", "c05_waiting_seen", "c05_start_on_freed_server"],
      functions=["Node.begin_service_if_possible_accept", "Node.begin_service_if_possible_release", "Node.begin_service_if_possible_change_shift", "Node.begin_interrupted_individuals_service", "Node.choose_next_customer", "Node.change_customer_class_while_waiting"] + CORE)
 
@@ -286,7 +291,9 @@ def cap_rows(K):
             row("Q1", K, c=1, cap_=1, batch=[1, 3]), row("Q1", K, c=2, cap_=0, syscap=3, batch=[2, 3]),
             row("T2", K, caps=[1, 0], a2=True), row("T2", K, c1=2, caps=[1, 1], a2=True, first=3), row("T2", K, caps=[0, 0], a2=True),
             row("L2", K - 1, caps=[1, 1]), row("L2", K, caps=[0, 1], first=[2, 2], burst=2), row("S1", K, cap_=1, first=3), row("BK", K, kind="sym", cap_=1, first=2),
-            row("RN", K, syscap=2), row("RN", K, c=1, cap_=1, first=2), row("RN", K, c=2, syscap=3, first=3), row("P1", K - 1, c=1, pre="resume", first=2)]
+            row("RN", K, syscap=2), row("RN", K, c=1, cap_=1, first=2), row("RN", K, c=2, syscap=3, first=3), row("P1", K - 1, c=1, pre="resume", first=2),
+            row("GEN", K, ccwait=True, classes=2, prio=True, cap1=1, burst=1, first=2), row("GEN", K, ccwait=True, classes=2, prio=True, cap1=2, burst=2, first=2, syscap=3),
+            row("GEN", K - 1, ccwait=True, classes=2, prio=True, pre="resume", cap1=1, burst=1, first=2)]
 
 
 prop("C06", mons=["C06"],
@@ -470,9 +477,9 @@ prop("C14", mons=["C14"], exc_is_violation=True,
      functions=["Simulation.simulate_until_max_time", "Simulation.simulate_until_max_customers", "create_network", "validify_dictionary", "Simulation.__init__"] + CORE)
 
 # C15 ------------------------------------------------------------------------------------------------
-C15_KINDS = ["mm1", "cycle", "sequential", "stateful", "prob", "schedule", "slotted", "process", "siro", "jsq", "schedule_offset", "slotted_offset", "classchange", "baulk"]
+C15_KINDS = ["mm1", "cycle", "sequential", "stateful", "prob", "schedule", "slotted", "process", "siro", "jsq", "schedule_offset", "slotted_offset", "classchange", "baulk", "flex_jsq"]
 prop("C15", mons=[],
-     quick=lambda: [crow("custom:reproducibility", 4, ties="forced", kind=k) for k in C15_KINDS]
+     quick=lambda: [crow("custom:reproducibility", 6 if k == "flex_jsq" else 4, ties="forced", kind=k) for k in C15_KINDS]
      + [crow("custom:reproducibility", 3, ties="forced", kind=k, between=True) for k in ("cycle", "sequential", "prob")],
      thorough=lambda: [crow("custom:reproducibility", 5, ties="forced", kind=k) for k in C15_KINDS]
      + [crow("custom:reproducibility", 4, ties="forced", kind=k, between=True) for k in C15_KINDS]
@@ -538,7 +545,7 @@ def c18_rows(K):
             row("DL", K + 1, base="S1", p=1.0, c=2, cap_=0), row("DL", K + 1, base="S1", p=0.5, c=1, cap_=1, first=2), row("DL", K, base="L3", streams=2),
             row("DL", K + 1, base="L3", streams=1, first=3), row("DL", K, base="L2", c=[2, 1], caps=[0, 0], first=[2, 1]), row("DL", K - 1, base="L2", classes=2, caps=[0, 0]),
             row("DL", K, base="T2", caps=[0, 0], a2=True), row("DL", K, base="L2", caps=[0, 0], tracker="MatrixBlocking"),
-            row("DL", K + 1, base="DL3"), row("DL", K + 1, base="DL3", c=[2, 2, 1], first=[2, 2, 1])] + ([row("DL", K + 1, base="DL3", c=[3, 1, 1], first=[3, 1, 1]), row("DL", K + 1, base="FK")] if K > 5 else [])
+            row("DL", K + 1, base="DL3"), row("DL", K + 1, base="DL3", c=[2, 2, 1], first=[2, 2, 1]), row("DL", K + 1, base="L3", streams=3, burst=1)] + ([row("DL", K + 1, base="DL3", c=[3, 1, 1], first=[3, 1, 1]), row("DL", K + 1, base="FK")] if K > 5 else [])
 
 
 prop("C18", mons=["C18"],
@@ -550,7 +557,8 @@ prop("C18", mons=["C18"],
 # C19 ------------------------------------------------------------------------------------------------
 def c19_rows(K):
     return ps(K) + [row("PS", K, capacity=2), row("PS", K, capacity=3, threshold=2, first=4), row("PS", K, capacity=1, first=2),
-                    row("PS", K, capacity=1, threshold=2, first=2), row("PS", K, capacity=2, threshold=3, first=3), row("PS", K, capacity=2, threshold=4, first=4, burst=1)]
+                    row("PS", K, capacity=1, threshold=2, first=2), row("PS", K, capacity=2, threshold=3, first=3), row("PS", K, capacity=2, threshold=4, first=4, burst=1),
+                    row("PS", K + 1, capacity2=1, first=3, burst=1), row("PS", K + 1, capacity2=2, first=4, burst=1), row("PS", K, capacity=2, capacity2=1, first=3, burst=1)]
 
 
 prop("C19", mons=["C19"],
